@@ -167,7 +167,8 @@ const prelude = `(set-logic ALL)
 (declare-const str_empty Str)
 (declare-fun otype (Int) Int)
 (define-fun fldloc ((l Loc) (k Int)) Loc (mk_loc (l_base l) (l_idx l) (+ (* 64 (l_path l)) k 1)))
-(define-fun elemloc ((s Slice) (i Int)) Loc (mk_loc (s_arr s) (+ (s_off s) i) 0))
+(declare-fun elemloc (Slice Int) Loc)
+(assert (forall ((s Slice) (i Int)) (! (= (elemloc s i) (mk_loc (s_arr s) (+ (s_off s) i) 0)) :pattern ((elemloc s i)))))
 (define-fun isnil ((l Loc)) Bool (= (l_base l) 0))
 (define-fun iface_eq ((a Iface) (b Iface)) Bool (and (= (i_dyn a) (i_dyn b)) (or (= (i_dyn a) T_nil) (= (i_val a) (i_val b)))))
 (define-fun valid_slice ((s Slice)) Bool (and (>= (s_arr s) 0) (>= (s_off s) 0) (>= (s_len s) 0) (<= (s_len s) (s_cap s)) (<= (s_cap s) ` + MAXLEN + `) (=> (= (s_arr s) 0) (and (= (s_off s) 0) (= (s_cap s) 0)))))
